@@ -48,6 +48,10 @@ def _gene_events(args):
             ev.append(["gene", ch_desc, ctor] + [0] * 12)
             continue
         g = holder[0]
+        if rnd.random() < 0.25:  # a gene (and isoforms) that was already asked everything
+            for t in txs:
+                E.warm(t)
+            E.warm(g)
         pidx = [k for k, t in enumerate(g.transcripts) if t is g.primary_transcript]
         ev.append(["gene", ch_desc, ctor, g.start, g.end, g.is_coding, pidx[0] + 1 if len(pidx) == 1 else 0,
                    E.outcome(lambda: E.loc(g.get_merged_transcript().chromosome_location)),
@@ -71,6 +75,8 @@ def _gene_events(args):
             ev.append(["fc", fdesc, ctor] + [0] * 7)
             continue
         fc = holder[0]
+        if rnd.random() < 0.25:
+            E.warm(fc)
         pidx = [k for k, t in enumerate(fc.feature_intervals) if t is fc.primary_feature]
         ev.append(["fc", fdesc, ctor, fc.start, fc.end, sorted(fc.feature_types), pidx[0] + 1 if len(pidx) == 1 else 0,
                    E.outcome(lambda: E.loc(fc.get_merged_feature().chromosome_location)),
